@@ -52,11 +52,20 @@ def gen(rng, k, sms):
         if rng.random() < 0.4:
             params['worker_lifespan'] = rng.choice([1, 2, 3])
         n = rng.choice([0, 1, 4, 13, 30])
-        inp = rng.choice(['list', 'gen', 'gen', 'ndarray'])
+        inp = rng.choice(['list', 'gen', 'gen', 'ndarray', 'gen_slow'])
         call = {'kind': rng.choice(['map', 'map_unordered', 'imap', 'imap_unordered']), 'n': n, 'input': inp, 'elem': 'scalar',
                 'params': params, 'base': 1000 * (j + 1), 'init': rng.random() < 0.3, 'exit': rng.random() < 0.4, 'want_exit_results': True}
         if inp == 'gen' and rng.random() < 0.5:
             params['iterable_len'] = n              # sized; otherwise the length is unknown until the input is exhausted
+        if inp == 'gen_slow':
+            # an input slower than the workers: everything is displayed before the total becomes known
+            call['n'] = n = rng.choice([1, 3, 4])
+            call['gen_delay'] = rng.choice([0.12, 0.25])
+            call['gen_tail'] = rng.choice([0.3, 0.6])
+            if rng.random() < 0.7:
+                params.pop('iterable_len', None)
+                params.pop('n_splits', None)
+                params['chunk_size'] = 1
         if inp == 'ndarray':
             call['func'] = 'task_np'
             call['init'] = call['exit'] = False
@@ -118,7 +127,7 @@ def oracle(rec):
         final = evs[-1]
         if final['n'] != items:
             return (f"call base={c['base']}: the bar ended at {final['n']} but {items} work items were processed "
-                    f"(lifespan={c['params'].get('worker_lifespan')}, input={c['input']}, sized={'iterable_len' in c['params'] or c['input'] != 'gen'})")
+                    f"(lifespan={c['params'].get('worker_lifespan')}, input={c['input']}, sized={'iterable_len' in c['params'] or c['input'] not in ('gen', 'gen_slow')})")
         if final['total'] is not None and final['total'] != items and not (items == 0):
             return f"call base={c['base']}: the bar's total ended at {final['total']} but {items} work items were processed"
     return None
@@ -170,7 +179,7 @@ def run(ctx):
             dist[key] = dist.get(key, 0) + 1
         for c in sc['calls']:
             if 'n' in c:
-                for key in ('n:' + str(c['n']), 'input:' + c['input'], 'sized:' + str(c['input'] != 'gen' or 'iterable_len' in c['params']),
+                for key in ('n:' + str(c['n']), 'input:' + c['input'], 'sized:' + str(c['input'] not in ('gen', 'gen_slow') or 'iterable_len' in c['params']),
                             'lifespan:' + str(c['params'].get('worker_lifespan'))):
                     dist[key] = dist.get(key, 0) + 1
     cov = dict(evaluations=len(recs) + nk, distinct_nontrivial=len({str(r['scenario']['pool']) + str(r['scenario']['calls']) for r in recs}),
